@@ -40,6 +40,15 @@ class C07(framework.PropertyCheck):
             [['define', v, 3], ['define', 'ff', ['fn', [x], ['unless', ['<', x, 1], ['set', [v, ['+', v, 1]]], ['ff', ['-', x, 1]]]]], ['ff', 2], v],
             [['defun', 'gg', [x], ['let', [['u', x]], ['fn', [], ['set', ['u', ['+', 'u', 1]]], 'u']]], ['define', v, ['gg', 4]], [v], [v]],
             [['define', v, 1], ['let', [[x, 2]], ['eval', ['quote', ['set', [v, ['+', v, x]]]]]], v],
+            # a user macro that inserts one operand at two different depths below its binding (once in the test, once inside a function body)
+            [['defmacro', 'sc9', ['k', 'xs'], ['quasiquote', ['if', ['=', ['unquote', 'k'], 0], ['quote', []],
+                                                            ['for/list', ['e9', ['unquote', 'xs']], ['*', ['unquote', 'k'], 'e9']]]]],
+             ['define', v, 7], ['let', [[x, 3]], ['sc9', x, ['quote', [1, 2]]]], ['define', 'h9', ['fn', [x], ['let', [['w9', 1]], ['sc9', x, ['list', x, 'w9']]]]], ['h9', 2], v],
+            [['defmacro', 'acc9', ['t', 'xs'], ['quasiquote', ['do', ['set', [['unquote', 't'], 0]],
+                                                             ['for', ['e9', ['unquote', 'xs']], ['set', [['unquote', 't'], ['+', ['unquote', 't'], 'e9']]]], ['unquote', 't']]]],
+             ['define', v, 100], ['let', [[x, 9]], ['acc9', x, ['quote', [1, 2, 3]]], ['list', x, v]], v],
+            # a define that does not execute, then an assignment in the same body: the assignment reaches the outer variable
+            [['define', v, 0], ['define', 'cd9', ['fn', ['c'], ['if', 'c', ['define', v, 5], 0], ['set', [v, 7]], v]], ['cd9', 0], v],
         ])
 
     def _steps(self, case, mode):
@@ -101,7 +110,7 @@ class C07(framework.PropertyCheck):
         return f'forms{min(len(case["forms"]), 12) // 4 * 4}+'
 
 
-MACROS = {'when', 'unless', 'cond', 'inc', 'for/list', 'map', 'fold', 'defun', 'for'}
+MACROS = {'when', 'unless', 'cond', 'inc', 'for/list', 'map', 'fold', 'defun', 'for', 'defmacro'}
 
 
 def _walk(p):
